@@ -213,3 +213,19 @@ class run_row_step:
 
     def post_loop_goes_on(flow):
         return flow == 'next'
+
+
+@contract(IMP + 'run', props=['C02'], name='run_tail')
+class run_tail:
+    """After the last row (tail contract): `run` hands out the very document the rows were imported into, and changes nothing on the
+    way out."""
+    tail = 'for row in'
+
+    def inputs(g):
+        imp, outcome, token = mk_cell_state(g)
+        return {'self': imp, 'reader': None, '_document': imp._document}
+
+    modifies = ()
+
+    def post_returns_the_imported_document(result, document):
+        return result is document
